@@ -42,6 +42,9 @@ pub enum CStep {
 pub struct CycCase {
     /// strict: known finding KF3 is not tolerated (used by its witness replay)
     pub strict: bool,
+    /// request every firewall as a root (deepest first) before each round;
+    /// off only in the witness of KF2, whose firewall lies on a cycle
+    pub firewalls_first: bool,
     pub prog: Program,
     pub steps: Vec<CStep>,
     pub tape: Vec<u8>,
@@ -78,6 +81,33 @@ fn eval_with(e: &Expr, val: &dyn Fn(u32) -> Val) -> i64 {
 
 /// Reads the expression performs under the given inputs (guards are
 /// pure-input, so this is exact).
+/// firewalls in an order in which every firewall comes after all firewalls
+/// it can statically reach
+fn firewalls_deepest_first(p: &Program) -> Vec<u32> {
+    let n = p.nodes.len() as u32;
+    let graph: BTreeMap<u32, Vec<u32>> = (0..n).map(|y| (y, p.static_reads(y))).collect();
+    let fws: Vec<u32> = (0..n)
+        .filter(|y| matches!(p.nodes[*y as usize].kind, Kind::Fw | Kind::CyF))
+        .collect();
+    // number of firewalls reachable from each firewall; a firewall that
+    // reaches another reaches strictly more (no firewall is on a cycle)
+    let mut keyed: Vec<(usize, u32)> = fws
+        .iter()
+        .map(|f| {
+            let mut seen = BTreeSet::new();
+            let mut stack = vec![*f];
+            while let Some(m) = stack.pop() {
+                if seen.insert(m) {
+                    stack.extend(graph[&m].iter().copied());
+                }
+            }
+            (seen.iter().filter(|x| fws.contains(x)).count(), *f)
+        })
+        .collect();
+    keyed.sort_unstable();
+    keyed.into_iter().map(|x| x.1).collect()
+}
+
 fn reads_under(p: &Program, e: &Expr, inputs: &dyn Fn(u32) -> Val, out: &mut Vec<u32>) {
     match e {
         Expr::Const(_) => {}
@@ -187,7 +217,10 @@ impl CycCase {
             static_graph.insert(y, p.static_reads(y));
         }
         for y in 0..p.nodes.len() as u32 {
-            if p.nodes[y as usize].kind == Kind::CyF && on_cycle(&static_graph, y) {
+            if p.nodes[y as usize].kind == Kind::CyF
+                && on_cycle(&static_graph, y)
+                && std::env::var_os("VERIF_C06_KEEP_FIREWALLS_ON_CYCLES").is_none()
+            {
                 p.nodes[y as usize].kind = Kind::Cy;
                 p.nodes[y as usize].default = vec![CY_DEFAULT];
             }
@@ -213,7 +246,7 @@ impl CycCase {
                 ));
             }
         }
-        Self { strict: false, prog: p, steps, tape: t.rest().to_vec() }
+        Self { strict: false, firewalls_first: true, prog: p, steps, tape: t.rest().to_vec() }
     }
 
     pub fn pretty(&self) -> String {
@@ -228,6 +261,7 @@ impl CycCase {
     pub fn to_json(&self) -> serde_json::Value {
         serde_json::json!({
             "strict": self.strict,
+            "firewalls_first": self.firewalls_first,
             "program": program_to_json(&self.prog),
             "tape": self.tape,
             "steps": self.steps.iter().map(|s| match s {
@@ -240,6 +274,7 @@ impl CycCase {
     pub fn from_json(v: &serde_json::Value) -> Self {
         Self {
             strict: v["strict"].as_bool().unwrap_or(false),
+            firewalls_first: v["firewalls_first"].as_bool().unwrap_or(true),
             prog: program_from_json(&v["program"]),
             tape: v["tape"].as_array().unwrap().iter().map(|x| x.as_u64().unwrap() as u8).collect(),
             steps: v["steps"].as_array().unwrap().iter().map(|s| {
@@ -331,8 +366,21 @@ pub async fn run_cyc(
             CStep::QueryAll { order, tasks } => {
                 let log_len_at_round_start = sh.log.lock().len();
                 // known finding KF1 excluded by construction (firewalls first)
+                // Every firewall is requested as a user-level root, deepest
+                // first in the order of static reachability (firewalls are
+                // off every cycle, so that order exists): when a node is then
+                // verified or gains a dependency on an already computed node,
+                // no firewall below it is stale any more. (Repairing the
+                // recorded firewall sets node by node is not enough here:
+                // unlike in the acyclic programs, a node may gain an edge to
+                // a node with a higher index.)
                 {
                     let te = engine.clone().tracked().await;
+                    if case.firewalls_first {
+                        for y in firewalls_deepest_first(&prog) {
+                            let _ = user_query(&prog, &te, y).await;
+                        }
+                    }
                     for y in 0..n {
                         if !prog.nodes[y as usize].kind.is_leaf() {
                             user_repair_tfc(&prog, &te, y).await;
@@ -541,6 +589,10 @@ pub fn run_struct(case: &CycCase) -> CaseResult {
         }
         Ok(out) => {
             cr.violation = out.violation;
+            if std::env::var_os("VERIF_C06_ONLY_LIVELOCK").is_some() {
+                // debugging aid (searching a fresh KF2 witness)
+                cr.violation = None;
+            }
             cr.nontrivial = out.unwound_total > 0;
             cr.labels = out.labels.into_iter().collect();
             cr.counters = vec![
